@@ -32,7 +32,12 @@ def handleCache (j : Json) : Json :=
     | "run" =>
       let k := jkey ((jobj? e "key").getD (Json.mkObj []))
       let files := jstrs e "files"
-      let (s', rep) := if jbool e "failing" then runFailing s k files else run s k files (jstop (jstr e "stop"))
+      -- "window_edit": "<file>" = that build file is edited right after every file was read (complete runs only)
+      let (s', rep) :=
+        if jbool e "failing" then runFailing s k files
+        else match jopt e "window_edit", jstop (jstr e "stop") with
+          | some f, .never => runWithEdit s k files f
+          | _, stop => run s k files stop
       (s', out ++ [Json.mkObj [("report", match rep with | .hit => "hit" | .done => "done" | .stopped => "stopped"),
                                ("ninja", ninjaJ s'), ("cache", cacheJ s')]])
     | _ => (s, out ++ [Json.mkObj [("bad", "event")]])
